@@ -334,47 +334,205 @@ mutual
     | .cons _ t r => hasUMap t || hasUMapF r
 end
 
-/-- a binding of `e` to a destination of type `t` is composed to something the
-resolver takes: `t` has no untyped map, or `e` has no reference, or `e` is a BARE
-reference to an output of a STAGE that is not map-called with statically known keys
-(a reference stays a reference; a run-time merge is resolved by `resolveMerge`,
-repaired by 5969c07), or a bare reference to an input of the TOP pipeline (bound to
-a reference-free literal by the top-level call).  Excluded: references nested in
-literals, outputs of nested pipelines, inputs of nested pipelines, statically
-expanded map calls. -/
-def umapExp (P : Prog) (inTop : Bool) (Γ : Env) (t : Ty) (e : Exp) : Bool :=
-  !hasUMap t || !e.hasRef ||
-    (match e with
-      | .call id _ =>
-        (match Γ.calls.lookup id with
-          | some sig =>
-            (P.find sig.name).isNone &&
-              (match sig.src with
-                | some (.map (some _)) => false
-                | _ => true)
-          | none => false)
-      | .self _ _ => inTop
-      | _ => false)
+/-- a mapped call whose composed form is safe below an untyped map: not map-mode.
+(An array-mode call is expanded to / merged as an ARRAY, whose destination level is
+an array type.  A map-mode call with statically known keys is expanded to a map
+literal of references – refused; whether the keys are static after composition
+depends on the callers, so every map mode is excluded here, conservatively: the
+run-time map merges that 5969c07 repaired stay OUTSIDE the theorem.) -/
+def srcSafe : Option SplitShape → Bool
+  | some (.map _) => false
+  | _ => true
 
-def umapBind (P : Prog) (inTop : Bool) (Γ : Env) (t : Ty) : Bind → Bool
-  | .plain e => umapExp P inTop Γ t e
-  | .split e => umapExp P inTop Γ t e
+/-- the call statements of a body that call `q`, with their environments -/
+def sitesIn (q : Bytes) : Env → List CallStm → List (Env × CallStm)
+  | _, [] => []
+  | Γ, c :: r =>
+    (if c.callee.name == q then [(Γ, c)] else []) ++
+      (match checkStm Γ c with
+        | some sh => sitesIn q { Γ with calls := Γ.calls ++ [(c.id, c.sig sh)] } r
+        | none => [])
 
-def umapCalls (P : Prog) (inTop : Bool) : Env → List CallStm → Bool
+/-- a bare reference to an output of a singly-called STAGE of the same body: a value that only
+exists at run time, whatever the callers of the pipeline do -/
+def stageRef (P : Prog) (Γ : Env) : Exp → Bool
+  | .call id _ =>
+    (match Γ.calls.lookup id with
+      | some sig => (P.find sig.name).isNone && sig.src.isNone
+      | none => false)
+  | _ => false
+
+/-- `self.x` inside the pipeline named `q` is a run-time value in EVERY call of `q`:
+`q` is not the top pipeline (whose inputs are literals) and every call binds `x` to
+a bare reference to a stage output, plainly or split -/
+def selfRuntimeIn (P : Prog) (topName : Bytes) (q : Bytes) (x : Bytes) : Bool :=
+  q != topName &&
+    P.pipes.all fun p' =>
+      (sitesIn q { self := p'.ins, calls := [] } p'.calls).all fun site =>
+        match allBinds site.1 site.2.callee.params site.2.binds site.2.wild with
+        | none => false
+        | some bs =>
+          match bs.lookup x with
+          | some (.plain e) => stageRef P site.1 e
+          | some (.split e) => stageRef P site.1 e
+          | none => false
+
+/-- the keys of the MAP-mode call `c` of the body of `q` (environment `Γ`) are only
+known at run time, also after the bindings have been composed across pipeline
+boundaries: every split argument is a bare reference to a stage output of the
+body, or to an input that is a run-time value in every call of `q`.  Such a merge
+is resolved by `TopNode.resolveMerge` (an untyped-map destination takes it since
+2cc08f5); with statically known keys it is expanded to a map literal of
+references, which the resolver refuses inside an untyped map. -/
+def runtimeKeys (P : Prog) (topName : Bytes) (q : Bytes) (Γ : Env) (c : CallStm) : Bool :=
+  match allBinds Γ c.callee.params c.binds c.wild with
+  | none => false
+  | some bs => bs.all fun ib =>
+      match ib.2 with
+      | .plain _ => true
+      | .split (.call id p) => stageRef P Γ (.call id p)
+      | .split (.self x _) => selfRuntimeIn P topName q x
+      | .split _ => false
+
+/-- the composed form of a reference to the call `id` of the body of `q` is safe
+below an untyped map as far as the MODE of the call goes: not map-mode, or map-mode
+with run-time keys -/
+def modeSafe (P : Prog) (topName : Bytes) (q : Pipeline) (id : Bytes) (src : Option SplitShape) : Bool :=
+  srcSafe src ||
+    (sitesInBody q.calls).any fun site => site.2.id == id && runtimeKeys P topName q.name site.1 site.2
+where
+  sitesInBody (calls : List CallStm) : List (Env × CallStm) :=
+    allSites { self := q.ins, calls := [] } calls
+  allSites : Env → List CallStm → List (Env × CallStm)
+    | _, [] => []
+    | Γ, c :: r =>
+      (Γ, c) :: (match checkStm Γ c with
+        | some sh => allSites { Γ with calls := Γ.calls ++ [(c.id, c.sig sh)] } r
+        | none => [])
+
+/-- the composed form of the output `o` of the pipeline `q` is a reference (to an
+output of a stage) or a reference-free literal: its return binding is one, or a
+reference to such an output of a pipeline it calls (`fuel` levels) -/
+def pipeOutSafe (P : Prog) (topName : Bytes) : Nat → Pipeline → Bytes → Bool
+  | 0, _, _ => false
+  | n + 1, q, o =>
+    match checkCalls { self := q.ins, calls := [] } q.calls with
+    | none => false
+    | some Γ =>
+      match allBinds Γ q.outs.toList q.ret q.retWild with
+      | none => false
+      | some bs =>
+        match bs.lookup o with
+        | some (.plain e) =>
+          !e.hasRef ||
+            (match e with
+              | .call id path =>
+                (match Γ.calls.lookup id with
+                  | some sig =>
+                    modeSafe P topName q id sig.src &&
+                      (match P.find sig.name with
+                        | none => true
+                        | some q' =>
+                          match path with
+                          | o' :: _ => pipeOutSafe P topName n q' o'
+                          | [] => false)
+                  | none => false)
+              | _ => false)
+        | _ => false
+
+/-- a BARE reference whose composed form is still a reference or a reference-free
+literal: an output of a stage (not map-mode), such an output of a nested pipeline,
+or an input `self.x` for which `selfSafe x` holds -/
+def bareSafe (P : Prog) (topName : Bytes) (fuel : Nat) (cur : Pipeline) (selfSafe : Bytes → Bool) (Γ : Env) : Exp → Bool
+  | .call id path =>
+    (match Γ.calls.lookup id with
+      | some sig =>
+        modeSafe P topName cur id sig.src &&
+          (match P.find sig.name with
+            | none => true
+            | some q =>
+              match path with
+              | o :: _ => pipeOutSafe P topName fuel q o
+              | [] => false)
+      | none => false)
+  | .self x _ => selfSafe x
+  | _ => false
+
+/-- an argument of a call of a nested pipeline: what `self.x` stands for inside it -/
+def argSafe (P : Prog) (topName : Bytes) (fuel : Nat) (caller : Pipeline) (Γ : Env) (e : Exp) : Bool :=
+  !e.hasRef || bareSafe P topName fuel caller (fun _ => caller.name == topName) Γ e
+
+def bindArgSafe (P : Prog) (topName : Bytes) (fuel : Nat) (caller : Pipeline) (Γ : Env) : Bind → Bool
+  | .plain e => argSafe P topName fuel caller Γ e
+  | .split (.arr xs) => xs.toList.all (argSafe P topName fuel caller Γ)
+  | .split (.map _ kvs) => kvs.toList.all fun kv => argSafe P topName fuel caller Γ kv.2
+  | .split e => argSafe P topName fuel caller Γ e
+
+/-- `self.x` inside `q`: `q` is the top pipeline (its inputs are reference-free
+literals of the top-level call), or EVERY call of `q` in the program binds `x` to a
+reference-free literal, a bare reference to a safe output, or a bare input of the top
+pipeline -/
+def selfSafeIn (P : Prog) (fuel : Nat) (topName : Bytes) (q : Pipeline) (x : Bytes) : Bool :=
+  q.name == topName ||
+    P.pipes.all fun p' =>
+      (sitesIn q.name { self := p'.ins, calls := [] } p'.calls).all fun site =>
+        match allBinds site.1 site.2.callee.params site.2.binds site.2.wild with
+        | none => false
+        | some bs =>
+          match bs.lookup x with
+          | some b => bindArgSafe P topName fuel p' site.1 b
+          | none => false
+
+mutual
+  /-- position by position: wherever the destination is (or, below a bare reference,
+  contains) the untyped `map`, the expression is reference-free or `safe` -/
+  def umapT (safe : Exp → Bool) : Ty → Exp → Bool
+    | .base b, e => b != .map || !e.hasRef || safe e
+    | .user _, _ => true
+    | .arr t, e =>
+      match e with
+      | .arr xs => xs.toList.all (fun x => umapT safe t x)
+      | e => !hasUMap t || !e.hasRef || safe e
+    | .tmap t, e =>
+      match e with
+      | .map _ kvs => kvs.toList.all (fun kv => umapT safe t kv.2)
+      | e => !hasUMap t || !e.hasRef || safe e
+    | .struct _ fs, e =>
+      match e with
+      | .map _ kvs => umapTF safe fs kvs
+      | e => !hasUMapF fs || !e.hasRef || safe e
+  def umapTF (safe : Exp → Bool) : Fields → KVs → Bool
+    | .nil, _ => true
+    | .cons k t r, kvs =>
+      (match kvs.get k with
+        | none => true
+        | some e => umapT safe t e) && umapTF safe r kvs
+end
+
+def umapBind (safe : Exp → Bool) (t : Ty) : Bind → Bool
+  | .plain e => umapT safe t e
+  | .split (.arr xs) => xs.toList.all (fun x => umapT safe t x)
+  | .split (.map _ kvs) => kvs.toList.all (fun kv => umapT safe t kv.2)
+  | .split e => !hasUMap t || safe e
+
+def umapCalls (safe : Env → Exp → Bool) : Env → List CallStm → Bool
   | _, [] => true
   | Γ, c :: r =>
     match checkStm Γ c, allBinds Γ c.callee.params c.binds c.wild with
     | some sh, some bs =>
       (bs.all fun ib =>
         match c.callee.params.lookup ib.1 with
-        | some t => umapBind P inTop Γ t ib.2
+        | some t => umapBind (safe Γ) t ib.2
         | none => true) &&
-      umapCalls P inTop { Γ with calls := Γ.calls ++ [(c.id, c.sig sh)] } r
+      umapCalls safe { Γ with calls := Γ.calls ++ [(c.id, c.sig sh)] } r
     | _, _ => true
 
-/-- every call argument and every return binding of the pipeline -/
-def umapPipe (P : Prog) (inTop : Bool) (p : Pipeline) : Bool :=
-  umapCalls P inTop { self := p.ins, calls := [] } p.calls &&
+/-- every call argument and every return binding of the pipeline `p` of a program
+whose top pipeline is `topName` -/
+def umapPipe (P : Prog) (topName : Bytes) (p : Pipeline) : Bool :=
+  let fuel := P.pipes.length + 1
+  let safe : Env → Exp → Bool := fun Γ => bareSafe P topName fuel p (selfSafeIn P fuel topName p) Γ
+  umapCalls safe { self := p.ins, calls := [] } p.calls &&
   (match checkCalls { self := p.ins, calls := [] } p.calls with
     | none => true
     | some Γ =>
@@ -382,7 +540,7 @@ def umapPipe (P : Prog) (inTop : Bool) (p : Pipeline) : Bool :=
       | none => true
       | some bs => bs.all fun ib =>
           match p.outs.toList.lookup ib.1 with
-          | some t => umapBind P inTop Γ t ib.2
+          | some t => umapBind (safe Γ) t ib.2
           | none => true)
 
 /-- the whole program: every pipeline definition, the top-level call, and no
@@ -392,7 +550,29 @@ def progOk (P : Prog) (top : CallStm) : Bool :=
     (match checkStm emptyEnv top with
       | some sh => okStm P emptyEnv top sh
       | none => false) &&
-    P.pipes.all (fun p => umapPipe P (p.name == top.callee.name) p)
+    P.pipes.all (fun p => umapPipe P top.callee.name p)
+
+/-- `progOk` without the hypothesis about composed bindings -/
+def progOkCore (P : Prog) (top : CallStm) : Bool :=
+  P.pipes.all (okPipe P) && validTop top &&
+    (match checkStm emptyEnv top with
+      | some sh => okStm P emptyEnv top sh
+      | none => false)
+
+/-- what happens when the program is handed to the run time -/
+inductive Outcome where
+  /-- `InvokePipeline` refuses the program BY DESIGN: a reference would be bound
+  inside an untyped map (`MakePipelineCallGraph`: "reference … cannot be bound
+  inside an untyped map").  In the model: `umapPipe` fails for some pipeline – a
+  conservative stand-in (the real code refuses only if the model does; tied per
+  run), not a model of the composition. -/
+  | refusedAtInvoke
+  | ran (r : Res (Env × Store))
+
+/-- invoke, then run -/
+def invokeAndRun (P : Prog) (O : Oracle) (n : Nat) (top : CallStm) : Outcome :=
+  if P.pipes.all (fun p => umapPipe P top.callee.name p) then .ran (runProgram P O n top)
+  else .refusedAtInvoke
 
 /-- no call of the program has a `disabled` modifier -/
 def noDisabled (P : Prog) (top : CallStm) : Bool :=
